@@ -102,4 +102,80 @@ def specValidation (before after : Obs) : Bool :=
       votes.all (fun v => if v.1 != x then v.2.all (fun p => newlyBlocked before after p) else true)
     | _, _ => true)
 
+/-! ### the blocking clauses read over whole histories
+
+  The checkers above look at one step.  Read over a history the property says: a peer that announced
+  `(x, h)` and whose announcement still counts (it was not blocked since, not removed by `remove_peer`, and
+  `h` did not fall out of the window) must be blocked when `h` is validated with another hash, and when it
+  announces for `h` again.  `Vote`s are the announcements that still count; `monStep` advances them by one
+  observed step and returns the violations of that step. -/
+
+structure Vote where
+  peer : Nat
+  hash : Nat
+  height : Nat
+  /-- the pool that held this vote was dropped (while the height was still inside the window) after the
+      header task of that height ended in a store error -/
+  orphaned : Bool
+  deriving Repr, DecidableEq
+
+inductive MonOp where
+  | notify (p x h : Nat)
+  | remove (p : Nat)
+  /-- a `poll` call and the event it delivered, if any -/
+  | poll (delivered : Option ObsEv)
+  | other
+  deriving Repr, DecidableEq
+
+inductive Violation where
+  /-- `h` is validated with another hash than the one `vote` announced and the peer was never blocked -/
+  | wrongHash (vote : Vote)
+  /-- the peer of `vote` announced for the same height again and was not blocked -/
+  | twice (vote : Vote)
+  deriving Repr, DecidableEq
+
+def blockNames : ObsEv → List Nat
+  | .block ps => ps
+  | .add _ => []
+
+/-- the peers named in a `BlockPeers` that this step queued or delivered -/
+def blockedNow (op : MonOp) (before after : Obs) : List Nat :=
+  let queued := match op with
+    | .poll _ => if before.events.isEmpty then after.events else []
+    | _ => after.events.drop before.events.length
+  let delivered := match op with
+    | .poll (some ev) => blockNames ev
+    | _ => []
+  delivered ++ queued.flatMap blockNames
+
+/-- `storeErrs`: the heights whose header task was made to fail with a store error so far -/
+def monStep (storeErrs : List Nat) (votes : List Vote) (op : MonOp) (before after : Obs) :
+    List Vote × List Violation :=
+  let blocked := blockedNow op before after
+  -- "announced twice": the peer already has a counting announcement for this height
+  let twice : List Violation := match op with
+    | .notify p _ h =>
+      if ignored before h || blocked.contains p then []
+      else (votes.filter (fun v => v.peer == p && v.height == h)).map Violation.twice
+    | _ => []
+  let votes : List Vote := match op with
+    | .notify p x h => if ignored before h then votes else votes ++ [Vote.mk p x h false]
+    | _ => votes
+  -- blocked or removed peers stop counting
+  let votes : List Vote := votes.filter (fun v => !blocked.contains v.peer)
+  let votes : List Vote := match op with
+    | .remove q => votes.filter (fun v => v.peer != q)
+    | _ => votes
+  -- pools that disappeared in this step
+  let votes : List Vote := votes.filterMap (fun v =>
+    if (lookup before.pools v.height).isSome && (lookup after.pools v.height).isNone then
+      if ignored after v.height then none                      -- fell out of the window: can never be validated
+      else some { v with orphaned := v.orphaned || storeErrs.contains v.height }
+    else some v)
+  -- "announced another hash for a validated height"
+  let wrong : List Vote := votes.filter (fun v => match lookup after.pools v.height with
+    | some (.validated y) => y != v.hash
+    | _ => false)
+  (votes.filter (fun v => !wrong.contains v), twice ++ wrong.map Violation.wrongHash)
+
 end Lumina.Spec.C40
